@@ -16,3 +16,13 @@ def test_astring_quoted_spelling_round_trips() -> None:
     assert bytes(ret) == b'"a b"'
     again, rest = AString.parse(memoryview(bytes(ret)), Params())
     assert again.value == ret.value and bytes(rest) == b''
+
+
+import pytest
+
+
+@pytest.mark.parametrize('name', ['é&a', 'é&', '日本&語', 'a&b', '&é'])
+def test_modutf7_round_trips_ampersand_after_non_ascii(name) -> None:
+    # R18.6: "&" ending a non-ASCII run was emitted raw
+    from pymap.parsing.modutf7 import modutf7_encode, modutf7_decode
+    assert modutf7_decode(modutf7_encode(name)) == name
